@@ -101,6 +101,7 @@ Record tables := mkT {
   t_h1_close_if_request_open : bool; (* h1.rs: a final response to an unfinished request ends the client connection *)
   t_h1_head_gate : bool;           (* h1.rs writable, Server position: nothing of a response is written before its head is complete *)
   t_park_requires_terminated : bool; (* h1.rs end_stream, Connected backend: parked for reuse only if keep-alive AND the response is terminated *)
+  t_park_requires_request_sent : bool; (* h1.rs end_stream, Connected backend: parked for reuse only if the request was completely sent to it (front terminated and written) *)
   t_close_waits_behind_interim : bool (* mod.rs dead-backend check + h1.rs readable: a lost backend is not closed while bytes sit unparsed behind an interim the frontend has not written; they are parsed once it has *)
 }.
 
@@ -164,7 +165,7 @@ Definition spec_known_codes : list N := [301; 302; 308; 400; 401; 404; 408; 421;
 Definition spec_tables : tables :=
   mkT spec_esd spec_connect 301 spec_ft spec_bt spec_end_arm
       [ESetState SUnlinked; EArm] [ESetState SUnlinked; EArm] spec_known_codes
-      3 true true true true true true true true true true.
+      3 true true true true true true true true true true true.
 
 (** * One stream and its frontend connection *)
 
@@ -208,7 +209,7 @@ Record conn := mkC {
   c_btimer : bool;          (* backend timeout armed (a backend connection exists) *)
   c_closed : bool;          (* session closed *)
   c_bparked : bool;         (* a backend connection of this session is parked (KeepAlive) for reuse *)
-  c_bdirty : bool           (* ghost: the parked connection still owes bytes of an earlier response *)
+  c_bdirty : bool           (* ghost: the parked connection still owes bytes of an earlier response, or is still owed bytes of an earlier request *)
 }.
 
 Definition valuation (c : conn) (s : stream) (x : cond) : bool :=
@@ -374,13 +375,18 @@ Inductive input :=
 | IClientClose.
 
 (** ConnectionH1::end_stream in Client position (Connected): the backend connection is kept for
-    reuse iff keep-alive and (the rule under test) the response is terminated; otherwise it is closed *)
+    reuse iff keep-alive and (the rules under test) the response is terminated and the request was completely sent; otherwise it is closed *)
 Definition park_backend (T : tables) (s : stream) (c : conn) : conn :=
   match s_state s with
   | SLinked =>
     let owes := negb (is_terminated (s_phase s)) || match s_interim s with NoInterim => false | _ => true end in
-    let parked := s_ka s && (negb owes || negb (t_park_requires_terminated T)) in
-    set_park c parked (parked && owes)
+    (* the request side: its body is still arriving (the backend answered on the head, then the client
+       cancelled or the response ended): the connection sits in the middle of that request's body and
+       would read the next request as part of it *)
+    let owed := s_ropen s in
+    let parked := s_ka s && (negb owes || negb (t_park_requires_terminated T))
+                  && (negb owed || negb (t_park_requires_request_sent T)) in
+    set_park c parked (parked && (owes || owed))
   | _ => c
   end.
 
